@@ -6,6 +6,8 @@ from ..astutil import text, short, endswith, calls_in, walk_no_nested
 from ..dataflow import DefUse
 from .. import events as E
 from .. import types as T
+from ..guards import facts
+from ._h_E import Flow, arg, argn, nargs, return_cases, leaf_polarity, is_const
 
 EXPLANATION = (
   "Decides the dependency discipline incremental recalculation rests on: record-level doc actions "
@@ -64,10 +66,15 @@ def r1_invalidate(run, w):
   inv = ar.nodes_calling(E.is_engine_call("invalidate_records")) | \
       ar.nodes_calling(lambda c, nm, f: nm == "self.invalidate_records")
   ok = bool(inv) and ar.cfg.dominated_by(ar.cfg.exit.id, inv)
-  calls = [c for (n, c, nm) in ar.calls() if nm == "self.invalidate_records"]
+  aflow = Flow(ar)
   ps = ar.fi.params()
-  ok_args = any(len(c.args) >= 2 and text(c.args[0]) == ps[1] and text(c.args[1]) == ps[2] and
-                not any(k.arg == "col_ids" for k in c.keywords) for c in calls)
+  def whole_rows(n, c):
+    """invalidate_records(<table_id param>, <row_ids param>) with no column restriction."""
+    a0, a1 = argn(w, ar, c, 0), argn(w, ar, c, 1)
+    return a0 is not None and a1 is not None and aflow.itext(a0, n.id, stop=ps) == ps[1] and \
+        aflow.itext(a1, n.id, stop=ps) == ps[2] and argn(w, ar, c, 2) is None and \
+        not any(k.arg == "col_ids" for k in c.keywords)
+  ok_args = any(whole_rows(n, c) for (n, c, nm) in ar.calls() if nm == "self.invalidate_records")
   run.ob(R1, ar.qualname, "self.invalidate_records(table_id, row_ids)",
          "adding records invalidates every column of the new rows", ok and ok_args, fi=ar.fi)
   lt = w.fn("engine.Engine.load_table")
@@ -76,57 +83,53 @@ def r1_invalidate(run, w):
          bool(adds) and lt.cfg.dominated_by(lt.cfg.exit.id, adds), fi=lt.fi)
   # BulkUpdateRecord invalidates exactly the rows and columns it wrote
   bu = w.fn("docactions.DocActions.BulkUpdateRecord")
+  bflow = Flow(bu)
   ps = bu.fi.params()
   ok = False
   for (n, c, nm) in bu.calls():
     if E.is_engine_call("invalidate_records")(c, nm, bu):
-      kw = {k.arg: k.value for k in c.keywords}
-      cols = kw.get("col_ids") or (c.args[2] if len(c.args) > 2 else None)
-      rows = c.args[1] if len(c.args) > 1 else kw.get("row_ids")
-      ok = cols is not None and rows is not None and text(rows) == ps[2] and \
-          text(cols) in (ps[3] + ".keys()", ps[3], "list(%s)" % ps[3], "list(%s.keys())" % ps[3])
+      cols = argn(w, bu, c, 2) or arg(c, None, "col_ids")
+      rows = argn(w, bu, c, 1) or arg(c, None, "row_ids")
+      ok = cols is not None and rows is not None and \
+          bflow.itext(rows, n.id, stop=ps) == ps[2] and \
+          bflow.itext(cols, n.id, stop=ps) in (ps[3] + ".keys()", ps[3], "list(%s)" % ps[3],
+                                                "list(%s.keys())" % ps[3], "set(%s)" % ps[3])
   run.ob(R1, bu.qualname, "invalidate_records(table_id, row_ids, col_ids=columns.keys())",
          "the update invalidates the rows and all the columns it wrote", ok, fi=bu.fi)
   # the BulkRemoveRecord invalidation covers all columns of the removed rows
   br = w.fn("docactions.DocActions.BulkRemoveRecord")
+  rflow = Flow(br)
   ok = False
   for (n, c, nm) in br.calls():
     if E.is_engine_call("invalidate_records")(c, nm, br):
-      ok = len(c.args) == 2 and not c.keywords and text(c.args[0]) == br.fi.params()[1]
+      a0 = argn(w, br, c, 0)
+      ok = nargs(c) == 2 and a0 is not None and argn(w, br, c, 1) is not None and \
+          rflow.itext(a0, n.id, stop=br.fi.params()) == br.fi.params()[1]
   run.ob(R1, br.qualname, "invalidate_records(table_id, row_ids)",
          "removal invalidates every column of the removed rows", ok, fi=br.fi)
 
 
-def _unset_all_columns_loop(fn):
-  """[(loop stmt, rows expr text)] for `for col in table.all_columns.values(): for r in ROWS:
-  col.unset(r)` shapes whose unset is not guarded by a column filter."""
+def _unset_all_columns_loop(fn, flow):
+  """[(unset node id, rows iterable expr, node id of the rows loop, conditions inside the column
+  loop)] for every `<col>.unset(<row>)` whose receiver is the variable of a loop over the values of
+  a table's column dict and whose argument is the variable of a loop over some rows."""
   out = []
-  for s in ast.walk(fn.node):
-    if not (isinstance(s, ast.For) and isinstance(s.target, ast.Name)):
+  for (n, c, nm) in fn.calls():
+    if not (isinstance(c.func, ast.Attribute) and c.func.attr == "unset" and
+            len(c.args) + len(c.keywords) == 1):
       continue
-    it = s.iter
+    src = flow.loop_source(c.func.value, n.id)
+    if src is None:
+      continue
+    it = src[0]
     if not (isinstance(it, ast.Call) and isinstance(it.func, ast.Attribute) and
             it.func.attr == "values" and
             fn.type_of(it.func.value) == "dict[column.BaseColumn]"):
       continue
-    colvar = s.target.id
-    # find unset calls in the body and the conditions they sit under
-    def find(stmts, conds, rows):
-      for b in stmts:
-        if isinstance(b, ast.If):
-          find(b.body, conds + [b.test], rows)
-          find(b.orelse, conds + [b.test], rows)
-        elif isinstance(b, ast.For):
-          find(b.body, conds, rows + [(text(b.target), text(b.iter))])
-        else:
-          for c in calls_in(b):
-            if isinstance(c.func, ast.Attribute) and c.func.attr == "unset" and \
-                isinstance(c.func.value, ast.Name) and c.func.value.id == colvar and \
-                len(c.args) == 1:
-              rv = text(c.args[0])
-              src = [it2 for (tg, it2) in rows if tg == rv]
-              out.append((s, src[0] if src else None, conds))
-    find(s.body, [], [])
+    a0 = c.args[0] if c.args else c.keywords[0].value
+    rows = flow.loop_source(a0, n.id)
+    conds = flow.facts_inside(n.id, src[1])
+    out.append((n.id, rows[0] if rows else None, rows[1] if rows else None, conds))
   return out
 
 
@@ -135,31 +138,30 @@ def r2_removal_siblings(run, w):
                 "and invalidate them (reference implementation: BulkRemoveRecord)", floor=4)
   for an in ("BulkRemoveRecord", "ReplaceTableData"):
     fn = w.fn("docactions.DocActions." + an)
-    loops = _unset_all_columns_loop(fn)
-    ok = any(rows is not None and not conds for (_, rows, conds) in loops)
+    flow = Flow(fn)
+    loops = _unset_all_columns_loop(fn, flow)
+    good = [(rows, rn) for (_, rows, rn, conds) in loops if rows is not None and not conds]
     run.ob(R2, fn.qualname, "for column in table.all_columns.values(): column.unset(<gone row>)",
            "every column (lookup maps and reference columns included) forgets the rows that "
-           "disappear, unconditionally", ok, fi=fn.fi)
-    rows_exprs = {rows for (_, rows, conds) in loops if rows is not None and not conds}
+           "disappear, unconditionally", bool(good), fi=fn.fi)
     inv_ok = False
     for (n, c, nm) in fn.calls():
-      if E.is_engine_call("invalidate_records")(c, nm, fn) and len(c.args) == 2 and \
-          not c.keywords and text(c.args[1]) in rows_exprs:
-        inv_ok = True
+      if E.is_engine_call("invalidate_records")(c, nm, fn) and nargs(c) == 2:
+        a1 = argn(w, fn, c, 1)
+        if a1 is not None and any(flow.same_value(a1, n.id, rows, rn) for (rows, rn) in good):
+          inv_ok = True
     run.ob(R2, fn.qualname, "invalidate_records(table_id, <gone rows>)",
            "everything depending on the vanished rows is recomputed", inv_ok, fi=fn.fi)
   # the gone rows of ReplaceTableData are the rows the table had before
   fn = w.fn("docactions.DocActions.ReplaceTableData")
-  loops = [(r, c) for (_, r, c) in _unset_all_columns_loop(fn) if r is not None]
-  du = DefUse(fn)
+  flow = Flow(fn)
   ok = False
-  for (rows, conds) in loops:
-    try:
-      e = ast.parse(rows, mode="eval").body
-    except SyntaxError:
+  for (_, rows, rn, conds) in _unset_all_columns_loop(fn, flow):
+    if rows is None:
       continue
-    ok = ok or du.flows_from(lambda x: isinstance(x, ast.Call) and isinstance(x.func, ast.Attribute)
-                             and x.func.attr == "fetch_table", e)
+    ok = ok or flow.du.flows_from(lambda x: isinstance(x, ast.Call) and
+                                  isinstance(x.func, ast.Attribute) and
+                                  x.func.attr == "fetch_table", rows)
   run.ob(R2, fn.qualname, "<gone rows> come from fetch_table(table_id, ...)",
          "the rows unset by ReplaceTableData are the rows present before the replacement", ok,
          fi=fn.fi)
@@ -199,18 +201,21 @@ def r3_read_requires_dependency(run, w):
                True, fi=fi, node=c, nontrivial=False)
         continue
       colvar = text(c.func.value)
+      flow = Flow(fn)
       uses = set()
       for (m, c2, nm) in fn.calls():
-        if endswith(nm, "_use_node") and c2.args:
-          a0 = text(c2.args[0])
-          if a0 == colvar + ".node":
+        a0n = argn(w, fn, c2, 0) if endswith(nm, "_use_node") else None
+        if a0n is not None:
+          a0 = flow.itext(a0n, m.id)
+          if a0 == colvar + ".node" or \
+              a0 == flow.itext(c.func.value, n.id) + ".node":
             uses.add(m.id)
-          elif isinstance(c2.args[0], ast.Name):
+          elif isinstance(a0n, ast.Name):
             # node = col_obj.node captured in an enclosing scope
             owner = fi.parent
             while owner is not None:
               if any(text(v) == colvar + ".node"
-                     for v in E.local_defs(owner.node, c2.args[0].id)):
+                     for v in E.local_defs(owner.node, a0n.id)):
                 uses.add(m.id)
               owner = owner.parent
       ok = bool(uses) and cfg.dominated_by(n.id, uses)
@@ -221,44 +226,46 @@ def r3_read_requires_dependency(run, w):
              ", ...)" % colvar, ok, witness=wit, fi=fi, node=c)
   # the accessor passes the row being read, so only that row is brought up to date / depended on
   fn = w.fn("table.Table._add_field_to_record_classes.record_field")
+  flow = Flow(fn)
+  rec = fn.fi.params()[0]
   ok = False
   for (n, c, nm) in fn.calls():
-    if endswith(nm, "_use_node") and len(c.args) == 3:
-      ok = text(c.args[1]) == "rec._source_relation" and text(c.args[2]) == "(rec._row_id,)"
+    if endswith(nm, "_use_node") and nargs(c) == 3:
+      a1, a2 = argn(w, fn, c, 1), argn(w, fn, c, 2)
+      ok = a1 is not None and a2 is not None and \
+          flow.itext(a1, n.id, stop=(rec,)) == rec + "._source_relation" and \
+          flow.itext(a2, n.id, stop=(rec,)) in ("(%s._row_id,)" % rec, "[%s._row_id]" % rec)
   run.ob(R3, fn.qualname, "use_node(node, rec._source_relation, (rec._row_id,))",
          "the dependency is recorded with the record's own relation and row", ok, fi=fn.fi)
-  # _use_node: adds the edge (current node -> used node) before deciding there is nothing to do
+  # _use_node: adds the edge (current node -> used node) for every formula node that is not
+  # peeking; the only other reason to skip it is that the very same edge was added before
   un = w.fn("engine.Engine._use_node")
   cfg = un.cfg
-  adds = un.nodes_calling(lambda c, nm, f: endswith(nm, "dep_graph.add_edge"))
+  flow = Flow(un)
+  ups = un.fi.params()
+  adds = [(n, c) for (n, c, nm) in un.calls() if endswith(nm, "dep_graph.add_edge")]
   recomp = un.nodes_calling(lambda c, nm, f: nm == "self._recompute")
   ok = bool(adds) and bool(recomp)
-  if ok:
-    # any early return that precedes add_edge may only be the _peeking one
-    for n in cfg.nodes:
-      if n.kind == "return" and any(a in cfg.reach_after({n.id}) or True for a in adds):
-        pre = cfg.reach({n.id}, forward=False)
-        if not (pre & adds):
-          # returns before the edge is added: must be guarded by self._peeking only
-          chain = [text(x.stmt.test) for x in cfg.nodes if x.kind == "if" and
-                   n.stmt in x.stmt.body]
-          if chain != ["self._peeking"] and not all(
-              t in ("self._peeking",) for t in chain):
-            # a return on the not-a-formula path after the `if self._is_current_node_formula` is
-            # fine as long as add_edge is not skipped for formula nodes
-            guard_formula = any(isinstance(x.stmt, ast.If) and
-                                text(x.stmt.test) == "self._is_current_node_formula"
-                                for x in cfg.nodes if x.kind == "if")
-            ok = ok and guard_formula and (cfg.reach({n.id}, forward=False) &
-                                           {x.id for x in cfg.nodes if x.kind == "if" and
-                                            text(x.stmt.test) == "self._is_current_node_formula"})
-  edge_args = [c for (n, c, nm) in un.calls() if endswith(nm, "dep_graph.add_edge")]
-  shape = False
-  for s in ast.walk(un.node):
-    if isinstance(s, ast.Assign) and isinstance(s.value, ast.Tuple) and \
-        [text(e) for e in s.value.elts] == ["self._current_node", un.fi.params()[1],
-                                            un.fi.params()[2]]:
-      shape = True
+  shape = bool(adds)
+  for (n, c) in adds:
+    # the edge: (self._current_node, <node param>, <relation param>), inline or through a local
+    elts = None
+    if len(c.args) == 1 and isinstance(c.args[0], ast.Starred):
+      ls = flow.leaves(c.args[0].value, n.id)
+      if len(ls) == 1 and isinstance(ls[0].expr, ast.Tuple):
+        elts = [flow.itext(e, ls[0].nid, stop=ups) for e in ls[0].expr.elts]
+    elif len(c.args) == 3:
+      elts = [flow.itext(e, n.id, stop=ups) for e in c.args]
+    shape = shape and elts == ["self._current_node", ups[1], ups[2]]
+    for (t, pol, i) in flow.required_facts(n.id):
+      tt = text(t)
+      allowed = (tt == "self._peeking" and pol is False) or \
+          (tt == "self._is_current_node_formula" and pol is True) or \
+          (isinstance(t, ast.Compare) and len(t.ops) == 1 and
+           text(t.comparators[0]) == "self._recompute_edge_set" and
+           ((isinstance(t.ops[0], ast.NotIn) and pol is True) or
+            (isinstance(t.ops[0], ast.In) and pol is False)))
+      ok = ok and allowed
   run.ob(R3, un.qualname, "edge = (self._current_node, node, relation); dep_graph.add_edge(*edge)",
          "the edge says: the node being computed depends on the node read, via the relation in use",
          ok and shape, fi=un.fi)
